@@ -2,33 +2,36 @@
 static int bad; static void fail(const char *what){ printf("MISMATCH %s\n", what); bad++; }
 extern int lfunc_0(void); extern void *addr_lfunc_0(void); extern void *l1_addr_lfunc_0(void); int (*volatile fp_lfunc_0)(void) = lfunc_0;
 extern int ldata_1[]; extern const void *addr_ldata_1(void); extern const void *l1_addr_ldata_1(void); extern int read_ldata_1(void); extern int l1_read_ldata_1(void); int *volatile dp_ldata_1 = ldata_1;
-extern int l2func_2(void); extern void *addr_l2func_2(void); extern void *l1_addr_l2func_2(void); int (*volatile fp_l2func_2)(void) = l2func_2;
-extern int lifunc_3(void); extern void *addr_lifunc_3(void); int (*volatile fp_lifunc_3)(void) = lifunc_3;
-extern int t_lalias_ts_4[]; extern void *addr_lalias_ts_4(void); extern void *waddr_lalias_ts_4(void); extern int read_lalias_ts_4(void); extern void write_lalias_ts_4(int);
-extern int lalias_sw_5; extern void *addr_lalias_sw_5(void); extern void *waddr_lalias_sw_5(void); extern int read_lalias_sw_5(void); extern void write_lalias_sw_5(int);
+extern int l2data_2[]; extern const void *addr_l2data_2(void); extern const void *l1_addr_l2data_2(void); extern int read_l2data_2(void); extern int l1_read_l2data_2(void); int *volatile dp_l2data_2 = l2data_2;
+extern int ldata_bss_3[]; extern const void *addr_ldata_bss_3(void); extern const void *l1_addr_ldata_bss_3(void); extern int read_ldata_bss_3(void); extern int l1_read_ldata_bss_3(void); int *volatile dp_ldata_bss_3 = ldata_bss_3;
+extern int t_lalias_ts_4; extern void *addr_lalias_ts_4(void); extern void *waddr_lalias_ts_4(void); extern int read_lalias_ts_4(void); extern void write_lalias_ts_4(int);
+extern int lalias_sw_5[]; extern void *addr_lalias_sw_5(void); extern void *waddr_lalias_sw_5(void); extern int read_lalias_sw_5(void); extern void write_lalias_sw_5(int);
 int main(void){
     if ((void*)lfunc_0 != addr_lfunc_0()) fail("lfunc_0: exe vs defining library");
     if ((void*)lfunc_0 != l1_addr_lfunc_0()) fail("lfunc_0: exe vs lib1");
     if ((void*)fp_lfunc_0 != (void*)lfunc_0) fail("lfunc_0: data pointer vs code reference in exe");
-    if (fp_lfunc_0() != 94 || lfunc_0() != 94) fail("lfunc_0: call result");
+    if (fp_lfunc_0() != 185 || lfunc_0() != 185) fail("lfunc_0: call result");
     if ((const void*)ldata_1 != addr_ldata_1()) fail("ldata_1: exe vs defining library");
     if ((const void*)ldata_1 != l1_addr_ldata_1()) fail("ldata_1: exe vs lib1");
     if ((const void*)dp_ldata_1 != (const void*)ldata_1) fail("ldata_1: data pointer vs code reference in exe");
-    if (ldata_1[0] != 13 || read_ldata_1() != 13) fail("ldata_1: initial value");
-    ldata_1[0] = 1013; if (read_ldata_1() != 1013 || l1_read_ldata_1() != 1013) fail("ldata_1: write through exe not seen by library");
-    if ((void*)l2func_2 != addr_l2func_2()) fail("l2func_2: exe vs defining library");
-    if ((void*)l2func_2 != l1_addr_l2func_2()) fail("l2func_2: exe vs lib1");
-    if ((void*)fp_l2func_2 != (void*)l2func_2) fail("l2func_2: data pointer vs code reference in exe");
-    if (fp_l2func_2() != 128 || l2func_2() != 128) fail("l2func_2: call result");
-    if ((void*)lifunc_3 != addr_lifunc_3()) fail("lifunc_3: library ifunc address exe vs library");
-    if ((void*)fp_lifunc_3 != (void*)lifunc_3) fail("lifunc_3: library ifunc address data vs code in exe");
-    if (lifunc_3() != 31 || fp_lifunc_3() != 31) fail("lifunc_3: ifunc call result");
-    if ((void*)t_lalias_ts_4 != addr_lalias_ts_4() || (void*)t_lalias_ts_4 != waddr_lalias_ts_4()) fail("lalias_ts_4: symbol in exe vs its alias used by the library");
-    if (t_lalias_ts_4[0] != 0 || read_lalias_ts_4() != 0) fail("lalias_ts_4: initial value");
-    t_lalias_ts_4[0] = 1176; if (read_lalias_ts_4() != 1176) fail("lalias_ts_4: write in exe not seen by the library through the alias");
-    write_lalias_ts_4(183); if (t_lalias_ts_4[0] != 183) fail("lalias_ts_4: write by the library through the alias not seen in exe");
-    if ((void*)&lalias_sw_5 != addr_lalias_sw_5() || (void*)&lalias_sw_5 != waddr_lalias_sw_5()) fail("lalias_sw_5: symbol in exe vs its alias used by the library");
-    if (lalias_sw_5 != 142 || read_lalias_sw_5() != 142) fail("lalias_sw_5: initial value");
-    lalias_sw_5 = 1142; if (read_lalias_sw_5() != 1142) fail("lalias_sw_5: write in exe not seen by the library through the alias");
-    write_lalias_sw_5(149); if (lalias_sw_5 != 149) fail("lalias_sw_5: write by the library through the alias not seen in exe");
+    if (ldata_1[0] != 86 || read_ldata_1() != 86) fail("ldata_1: initial value");
+    ldata_1[0] = 1086; if (read_ldata_1() != 1086 || l1_read_ldata_1() != 1086) fail("ldata_1: write through exe not seen by library");
+    if ((const void*)l2data_2 != addr_l2data_2()) fail("l2data_2: exe vs defining library");
+    if ((const void*)l2data_2 != l1_addr_l2data_2()) fail("l2data_2: exe vs lib1");
+    if ((const void*)dp_l2data_2 != (const void*)l2data_2) fail("l2data_2: data pointer vs code reference in exe");
+    if (l2data_2[0] != 9 || read_l2data_2() != 9) fail("l2data_2: initial value");
+    l2data_2[0] = 1009; if (read_l2data_2() != 1009 || l1_read_l2data_2() != 1009) fail("l2data_2: write through exe not seen by library");
+    if ((const void*)ldata_bss_3 != addr_ldata_bss_3()) fail("ldata_bss_3: exe vs defining library");
+    if ((const void*)ldata_bss_3 != l1_addr_ldata_bss_3()) fail("ldata_bss_3: exe vs lib1");
+    if ((const void*)dp_ldata_bss_3 != (const void*)ldata_bss_3) fail("ldata_bss_3: data pointer vs code reference in exe");
+    if (ldata_bss_3[0] != 0 || read_ldata_bss_3() != 0) fail("ldata_bss_3: initial value");
+    ldata_bss_3[0] = 1185; if (read_ldata_bss_3() != 1185 || l1_read_ldata_bss_3() != 1185) fail("ldata_bss_3: write through exe not seen by library");
+    if ((void*)&t_lalias_ts_4 != addr_lalias_ts_4() || (void*)&t_lalias_ts_4 != waddr_lalias_ts_4()) fail("lalias_ts_4: symbol in exe vs its alias used by the library");
+    if (t_lalias_ts_4 != 188 || read_lalias_ts_4() != 188) fail("lalias_ts_4: initial value");
+    t_lalias_ts_4 = 1188; if (read_lalias_ts_4() != 1188) fail("lalias_ts_4: write in exe not seen by the library through the alias");
+    write_lalias_ts_4(195); if (t_lalias_ts_4 != 195) fail("lalias_ts_4: write by the library through the alias not seen in exe");
+    if ((void*)lalias_sw_5 != addr_lalias_sw_5() || (void*)lalias_sw_5 != waddr_lalias_sw_5()) fail("lalias_sw_5: symbol in exe vs its alias used by the library");
+    if (lalias_sw_5[0] != 0 || read_lalias_sw_5() != 0) fail("lalias_sw_5: initial value");
+    lalias_sw_5[0] = 1033; if (read_lalias_sw_5() != 1033) fail("lalias_sw_5: write in exe not seen by the library through the alias");
+    write_lalias_sw_5(40); if (lalias_sw_5[0] != 40) fail("lalias_sw_5: write by the library through the alias not seen in exe");
     if (!bad) printf("OK\n"); return bad ? 1 : 0; }
